@@ -185,6 +185,19 @@ Definition commit_trace (S F : list positive) (n : positive) : list devent :=
     DEv DSyncDir (PDir S) (PDir S) None [];
     DEv DSyncDir (PDir F) (PDir F) None [] ].
 
+(* a collection / batch: every member (temporary name, font name, representation) is first written into the
+   staging directory S by writeGobWithOperations, then every member is committed S -> F *)
+Definition cmember := (positive * positive * bytes)%type.
+Definition cm_tmp (m : cmember) : positive := fst (fst m).
+Definition cm_name (m : cmember) : positive := snd (fst m).
+Definition cm_data (m : cmember) : bytes := snd m.
+Definition stage_trace (S : list positive) (ms : list cmember) : list devent :=
+  flat_map (fun m => gob_trace S (cm_tmp m) (cm_name m) (cm_data m)) ms.
+Definition commit_all_trace (S F : list positive) (ms : list cmember) : list devent :=
+  flat_map (fun m => commit_trace S F (cm_name m)) ms.
+Definition collection_trace (S F : list positive) (ms : list cmember) : list devent :=
+  stage_trace S ms ++ commit_all_trace S F ms.
+
 (* ---- entry points for extraction ---- *)
 (* initial durable state from a tree: every file its own inode, everything flushed *)
 Definition dst_of_lists (l : list (list positive * list (positive * bytes))) : dst :=
